@@ -275,6 +275,33 @@ def r7(ctx):
         ctx.bad('PixCoord WCS defaults', 'defaults', 'to_sky/from_sky defaults for origin/mode differ from 0/"all"', f.loc())
 
 
+def r8(ctx):
+    """integer components: PixCoord keeps the dtype it is given, so its arithmetic must not multiply or square values that
+    may be integer arrays (they wrap around silently) — the may-be-integer dataflow of C01.R9 over the arithmetic methods."""
+    from .c01 import _DtypeLint
+    m = ctx.model
+    ci = m.cls('PixCoord')
+    lint = _DtypeLint(ctx, m)
+    n = 0
+    for name in ('separation', 'rotate', '__add__', '__sub__', '__eq__'):
+        f = ci.methods.get(name)
+        if f is None:
+            continue
+        n += 1
+        before = len(lint.problems)
+        lint.fn(f, ['scalar'] * len(f.node.args.args))
+        new = lint.problems[before:]
+        if new:
+            fi, node, text = new[0]
+            ctx.bad(f'PixCoord.{name}', 'integer-overflow',
+                    f'{text}: for integer-typed coordinates the product wraps around silently (int32: values >= 46341), so the '
+                    'result is not the real-number result; convert to float first (np.hypot, a float factor, dtype=float)',
+                    fi.loc(node))
+        else:
+            ctx.ok(f'PixCoord.{name}', 'no product/power of possibly-integer component arrays')
+    ctx.need(n >= 3, 'PixCoord arithmetic methods', f'only {n} found')
+
+
 RULES = [
     RuleDef('R1', 'constructor broadcasts once and unwraps scalars', r1, 1),
     RuleDef('R2', 'indexing / iteration / length act on x and y alike', r2, 3),
@@ -283,4 +310,5 @@ RULES = [
     RuleDef('R5', 'rotate is the rotation matrix about the centre', r5, 1),
     RuleDef('R6', 'copy is deep; equality is allclose on both components', r6, 2),
     RuleDef('R7', 'to_sky/from_sky forward wcs, origin, mode', r7, 3),
+    RuleDef('R8', 'integer components: no product/power of possibly-integer arrays in the arithmetic methods', r8, 3),
 ]
